@@ -286,6 +286,24 @@ class SymPath:
             raise FileNotFoundError(self._name)
         return _Stat(d.committed.length)
 
+    def replace(self, target):
+        """os.replace: the file takes the target's name (an existing target is overwritten)"""
+        tname = target._name if isinstance(target, SymPath) else str(target)
+        if self._name in fs().links:
+            raise Unsupported("rename of a symbolic link")
+        src = fs().file(self._name)
+        if not src.exists:
+            raise FileNotFoundError(self._name)
+        fs().links.pop(tname, None)
+        dst = fs().file(tname)
+        dst.exists = True
+        dst.cur = src.committed.copy()
+        dst.sync()
+        src.exists = False
+        return SymPath(tname)
+
+    rename = replace
+
     def is_symlink(self) -> bool:
         return self._name in fs().links
 
